@@ -256,6 +256,12 @@ def step64 (st : St) (cmd : List String) (got : String) : Option (St × Verdict)
     match w.toNat? with
     | some _ => some (many64 st y names got unionAll)
     | none => some (skip64 st got)
+  | "concagg64" :: k :: w :: names =>
+    match k.toNat?, w.toNat?, names.mapM (fun n => st.bm64[n]?) with
+    | some kk, some _, some sets =>
+      if kk < 1 || kk > 64 || names.isEmpty then some (skip64 st got)
+      else some (st, expect (digest (unionAll sets) ++ " same=true in=ok") got)
+    | _, _, _ => some (skip64 st got)
   | ["as64", y, x] =>
     match st.bm[x]? with
     | some s => some ({ st with bm64 := st.bm64.insert y s }, expect (digest s ++ " " ++ digest s) got)
